@@ -206,6 +206,7 @@ def bel_loco_case(n):
 
 
 def m_cases(tier):
+    tier = "thorough"  # the full case list is cheap enough to run on every change (the tiers differ only in validation vectors)
     cs = [fc_limit_case(3), fc_over_limit_rejected(2), gen_case(3), edrv_case(2), res_limit_case(2, 2), res_soc_window_case(2, 2), conv_loco_case(2), bel_loco_case(2)]
     if tier == "thorough":
         cs += [fc_limit_case(4), gen_case(4), edrv_case(3), res_limit_case(3, 2), res_soc_window_case(2, 3), conv_loco_case(3), bel_loco_case(3)]
